@@ -525,13 +525,16 @@ class WinEPR:
     def draw(self, rng):
         rank = rng.randint(1, 2)
         ext = rng.sample([2, 3, 4, 5, 6, 7], rank) + [1] * (2 - rank)
-        return {"ext": ext, "rank": rank, "dos": rng.random() < 0.7, "axis": rng.choice(["hcf", "gst", "gst+hcf", "gst+hsw"])}
+        return {"ext": ext, "rank": rank, "dos": rng.random() < 0.7, "axis": rng.choice(["hcf", "gst", "gst+hcf", "gst+hsw"]),
+                "ymin": rng.choice([15.0, 0.0, -3.0]), "gst": rng.choice([3400.0, 0.0])}
 
     def systematic(self, rng):
         """rank x {DOS little-endian float32, big-endian int32} x {field axis from HCF/HSW; from GST/GSI with neither, only the
         centre field, or only the sweep width given (an incomplete centre description falls back on the sweep description)}"""
         return [{"ext": rng.sample([2, 3, 4, 5, 6, 7], rank) + [1] * (2 - rank), "rank": rank, "dos": dos, "axis": ax}
-                for rank in (1, 2) for dos in (True, False) for ax in (("hcf", "gst", "gst+hcf", "gst+hsw") if rank == 1 else ("hcf",))]
+                for rank in (1, 2) for dos in (True, False) for ax in (("hcf", "gst", "gst+hcf", "gst+hsw") if rank == 1 else ("hcf",))] + \
+               [{"ext": rng.sample([2, 3, 4, 5, 6, 7], 2), "rank": 2, "dos": True, "axis": "hcf", "ymin": ym} for ym in (0.0, -3.0)] + \
+               [{"ext": rng.sample([3, 4, 5, 6, 7], 1) + [1], "rank": 1, "dos": True, "axis": "gst", "gst": 0.0}]   # axes that START AT ZERO
 
     def layout(self, c):
         x, y = c["ext"]
@@ -546,10 +549,10 @@ class WinEPR:
         x, y = c["ext"]
         lines = (["DOS  Format"] if c.get("dos", True) else []) + ["ANZ %d" % (x * y), "MIN -1.0", "MAX 1.0", "JSS 0"]
         if c["rank"] == 2:
-            lines += ["SSX %d" % x, "SSY %d" % y, "XXLB 3400.000000", "XXWI 200.000000", "XYLB 15.000000", "XYWI %d.000000" % (y - 1),
+            lines += ["SSX %d" % x, "SSY %d" % y, "XXLB 3400.000000", "XXWI 200.000000", "XYLB %f" % c.get("ymin", 15.0), "XYWI %d.000000" % (y - 1),
                       "XXUN G", "XYUN dB"]
         else:
-            lines += ["GST 3400.000000", "GSI 200.000000", "JUN G", "RES %d" % x]
+            lines += ["GST %f" % c.get("gst", 3400.0), "GSI 200.000000", "JUN G", "RES %d" % x]
         lines += ["JSD 4"] + ({"hcf": ["HCF 3500.000000", "HSW 200.000000"], "gst": [], "gst+hcf": ["HCF 3333.000000"], "gst+hsw": ["HSW 77.000000"]}[
                       c.get("axis", "hcf") if c["rank"] == 1 else "hcf"]) + ["RCT 40.96", "RTC 10.24", "RRG 5.6e+003", "RMA 3.0", "MF  9.43",
                   "MP  2.0e-001", "MPD 30.0", "TE  294.2"]
@@ -568,9 +571,10 @@ class WinEPR:
     def expect(self, c, raw):
         x, y = c["ext"]
         v = raw.astype(float).reshape([x, y][: c["rank"]])
-        coords = [np.linspace(3400.0, 3600.0, x) / 10]
+        g0 = c.get("gst", 3400.0) if (c["rank"] == 1 and c.get("axis", "hcf") != "hcf") else 3400.0
+        coords = [np.linspace(g0, g0 + 200.0, x) / 10]
         if c["rank"] == 2:
-            coords.append(np.linspace(15.0, 15.0 + (y - 1), y))
+            coords.append(np.linspace(c.get("ymin", 15.0), c.get("ymin", 15.0) + (y - 1), y))
         return v, ["B0", "t1"][: c["rank"]], coords
 
     def perturbed(self, c, change):
